@@ -47,6 +47,12 @@
        the pushing goroutine is the only sender and receivers only make room.
    `fixed = false` is the code before the fix recorded for C08: no subscribersLock at all.
 
+   The Forkable's step is `hub_live` of Model/Hub.v, as in Model/HubSubs.v.  For a READY hub (h_ready, which
+   hub_live never resets) this is exactly one Forkable.ProcessBlock, i.e. one critical section of the
+   write lock, as written here.  For a hub that is still bootstrapping hub_live stands for several
+   ProcessBlock calls (one per one-block file fed), each with its own Lock/Unlock: the model is then
+   coarser than the code; C08 is about a ready hub (the hub publishes itself through Ready).
+
    Not modelled: the shutter of a subscription (ms_dropped records that push returned the capacity
    error; unsubscribe + Shutdown follow in the next producer step), hub shutdown, reconnection.
    A dropped subscription keeps what was queued (as in Model/HubSubs.v).
